@@ -281,7 +281,8 @@ pub fn run(ctx: &Ctx) {
   });
   ctx.subspace(&format!("(1c) all lunations k = {}..{} ({}) against the new-moon series within 3 min (TT)", ka, kb, if ctx.quick() { "years 1000..4000" } else { "years -1000..6000" }), done, (kb - ka) as u64);
   // (2a) terms 1961..9999: calendar day == day of the precise instant
-  let years: Vec<isize> = years_for(ctx, 1961, 9999);
+  // the day-agreement spaces cost a few seconds, so both tiers enumerate them completely
+  let years: Vec<isize> = (1961..=9999).collect();
   let done = par_chunks(ctx, 0, years.len(), 16, |a, b, l| {
     for i in a..b {
       for j in 0..24 {
@@ -293,7 +294,7 @@ pub fn run(ctx: &Ctx) {
   ctx.subspace(&format!("(2a) terms of {} years in 1961..9999 ({} terms): calendar-making day = UTC+8 civil day of the precise instant", years.len(), years.len() * 24), done, years.len() as u64 * 24);
   // (2b) lunations of lunar years 1961..8000
   let t = LunTable::build(ctx, 1961, 8000);
-  let lyears: Vec<isize> = years_for(ctx, 1961, 8000);
+  let lyears: Vec<isize> = (1961..=8000).collect();
   let mut idx: Vec<usize> = Vec::new();
   for &y in &lyears {
     idx.extend(t.year_start[y as usize] as usize..t.year_start[y as usize + 1] as usize);
